@@ -20,7 +20,13 @@ ALPHABET = [
     # sub-register writes of a register holding a constant, under a symbolic flag (concatenation of constants and a conditional)
     'mov eax, 0x11223344', 'test ecx, ecx', 'sete ah', 'setne bl', 'cmovz ax, bx', 'adc ah, 0',
     'mov ah, 0x55', 'mov al, bl',
+    # (38..) used by the small-alphabet jobs only: byte/word register moves (slices of one source shared between registers) ...
+    'mov bh, ah', 'mov cl, al', 'mov ch, bh', 'mov bl, al', 'mov al, bh', 'mov ah, bl', 'mov bx, ax', 'mov ax, cx',
+    # ... and logic + shift on sub-registers with masks keeping the sign bit and counts at / beyond the operand width
+    'and al, 0x80', 'sar al, 8', 'and ax, 0x8001', 'sar ax, 17', 'shr al, 8', 'sar eax, 31', 'and eax, 0x80000000', 'sar al, 7', 'shl al, 8', 'or al, 0x80',
+    'and bl, 0x81', 'sar bl, 1', 'shr ax, 16', 'rol al, 8', 'sar ah, 9',
 ]
+NFULL = 38          # the depth-3/4 searches run over ALPHABET[:NFULL]
 QUICK_ALPHABET = [0, 1, 3, 4, 11, 12, 13, 14, 15, 16, 17, 18, 19, 21, 22, 23, 24, 26, 30, 31, 32, 36, 37]
 BASES = {'esp': 0x00100000, 'esi': 0x00200000, 'edi': 0x00300000}
 GPR = ['eax', 'ebx', 'ecx', 'edx', 'esi', 'edi', 'esp', 'ebp']
@@ -39,9 +45,12 @@ def encoded():
     return _enc
 
 
-def valuations(seed):
+def valuations(seed, extra=False):
     vs = []
-    for k, pat in enumerate(((0x01020304, 0x80000000, 0xfffffffe, 0x7fffffff, 0x12345678), (0xdeadbeef, 1, 0, 0xffffffff, 0x00ff00ff))):
+    pats = ((0x01020304, 0x80000000, 0xfffffffe, 0x7fffffff, 0x12345678), (0xdeadbeef, 1, 0, 0xffffffff, 0x00ff00ff))
+    if extra:       # every byte of every register with its top bit set (sign-sensitive sub-register paths)
+        pats = pats + ((0x8081c0ff, 0xff80a07f, 0x80f08081, 0xc3a5e1f0, 0x818283f4),)
+    for k, pat in enumerate(pats):
         v = {}
         for i, r in enumerate(GPR):
             v['init_' + r] = BASES[r] + 0x40 * k if r in BASES else pat[(i + k) % len(pat)]
@@ -124,12 +133,12 @@ def windows(hist_lines):
     return W
 
 
-def check_state(ctx, machine, hist, seed):
+def check_state(ctx, machine, hist, seed, extra=False):
     """returns None or (location, detail).  hist: list of alphabet indices"""
     X, sem = ctx['X'], ctx['sem']
     enc = encoded()
     lines = [ALPHABET[i] for i in hist]
-    for val in valuations(seed):
+    for val in valuations(seed, extra):
         cm = Concrete(val)
         try:
             for i in hist:
@@ -199,7 +208,7 @@ def canon_state(machine):
     return core.h64('\n'.join(machine.dump_id() + machine.dump_mem()))
 
 
-def explore_one(ctx, part, h2, seed):
+def explore_one(ctx, part, h2, seed, extra=False):
     """emulate the history on a fresh machine, check the invariant; returns the canonical state key, or None if the
     state must not be expanded (emulation raises / invariant fails / reference cannot execute)"""
     ia32, eh = ctx['ia32'], ctx['eh']
@@ -218,7 +227,7 @@ def explore_one(ctx, part, h2, seed):
     part.transitions += 1
     part.traces += 1
     key = canon_state(m)
-    r = check_state(ctx, m, h2, seed)
+    r = check_state(ctx, m, h2, seed, extra)
     part.n += 1
     if r is None:
         part.keys.add(core.h64(h2))
@@ -240,7 +249,7 @@ def explore_one(ctx, part, h2, seed):
     return key
 
 
-def bfs(ctx, part, alpha, depth, seed, s, ns, split=1):
+def bfs(ctx, part, alpha, depth, seed, s, ns, split=1, extra=False):
     """level-synchronous BFS; level `split` is partitioned over the shards (by position), each shard explores its sub-trees.
     Levels above the split are re-walked by every shard (they must rebuild the frontier) but recorded by shard 0 only."""
     seen = set()
@@ -255,9 +264,9 @@ def bfs(ctx, part, alpha, depth, seed, s, ns, split=1):
                 if d == split and pos % ns != s:
                     continue
                 if d < split and s != 0:
-                    key = explore_one(ctx, core.Part(), h2, seed)       # rebuild only: nothing recorded
+                    key = explore_one(ctx, core.Part(), h2, seed, extra)       # rebuild only: nothing recorded
                 else:
-                    key = explore_one(ctx, part, h2, seed)
+                    key = explore_one(ctx, part, h2, seed, extra)
                 if key is None or key in seen:
                     continue
                 seen.add(key)
@@ -274,6 +283,8 @@ LONG_JOBS = [
     ([3, 4, 8, 9], 5, 6),          # mov ah, bl | add eax, ebx | shl eax, 4 | xchg eax, ecx
     ([15, 18, 4, 9], 5, 6),        # mov [esi], eax | mov eax, [esi] | add eax, ebx | xchg eax, ecx
     ([5, 7, 37, 36, 0], 4, 6),     # sub ebx, 1 | inc ecx | mov al, bl | mov ah, 0x55 | mov eax, ebx
+    ([38, 39, 40, 41, 42, 43, 44, 45, 0], 3, 4),                                   # byte / word register moves | mov eax, ebx
+    ([46, 47, 48, 49, 50, 51, 52, 53, 54, 55, 56, 57, 58, 59, 60, 37, 30], 2, 3),   # sub-register logic and shifts | mov al, bl | mov eax, 0x11223344
 ]
 
 
@@ -444,12 +455,12 @@ def shard(s, ns, tier, seed):
         if tier == 'quick':
             bfs(ctx, part, QUICK_ALPHABET, 3, seed, s, ns)
             for al, dq, dt in LONG_JOBS:
-                bfs(ctx, part, al, dq, seed, s, ns, split=3)
+                bfs(ctx, part, al, dq, seed, s, ns, split=min(3, dq), extra=True)
         else:
-            bfs(ctx, part, list(range(len(ALPHABET))), 3, seed, s, ns)
+            bfs(ctx, part, list(range(NFULL)), 3, seed, s, ns)
             bfs(ctx, part, QUICK_ALPHABET, 4, seed, s, ns)
             for al, dq, dt in LONG_JOBS:
-                bfs(ctx, part, al, dt, seed, s, ns, split=3)
+                bfs(ctx, part, al, dt, seed, s, ns, split=min(3, dt), extra=True)
         for i, (base, stores, load) in enumerate(storeload_space(tier)):
             if (i // 64) % ns != s:
                 continue
@@ -498,7 +509,7 @@ def run(tier, seed):
     t0 = time.time()
     core.import_x86()
     encoded()
-    part = core.run_sharded(shard, (tier, seed), nshards=len(QUICK_ALPHABET) if tier == 'quick' else len(ALPHABET))
+    part = core.run_sharded(shard, (tier, seed), nshards=len(QUICK_ALPHABET) if tier == 'quick' else NFULL)
     rule = ('(1) BFS over instruction sequences: alphabet of %d instructions (quick alphabet: %d), depth %d, real emul_lines on a fresh x86_machine per history, '
             'canonical state = digest of dump_id()+dump_mem(), already-seen states are not expanded, failing states are not expanded; invariant per '
             'state: for 2 valuations of the initial symbols (bases 1 MiB apart) every general register, status flag and every read-back of 8/16/32 '
@@ -507,7 +518,11 @@ def run(tier, seed):
             'symbolic base through eval_instr/eval_expr. (3) rep stosb/movsb/stosd/repe cmpsb/repne scasb with ecx 0..3, df 0/1 and concrete memory '
             'making the termination test fire at each position, against the architectural loop. states/transitions/traces are counted on the real code; '
             'every explored trace is replayed on the implementation (that replay is the check)' % (
-                len(ALPHABET), len(QUICK_ALPHABET), 3, '1..2 (+3 over 8 store shapes)' if tier == 'quick' else '1..3') + (' [thorough: depth 3 over the full alphabet and depth 4 over the quick alphabet]' if tier != 'quick' else ''))
+                NFULL, len(QUICK_ALPHABET), 3, '1..2 (+3 over 8 store shapes)' if tier == 'quick' else '1..3') + (' [thorough: depth 3 over the full alphabet and depth 4 over the quick alphabet]' if tier != 'quick' else '')
+            + ' (1b) the same search over %d small interacting alphabets to greater depth (%s): accumulating arithmetic / exchanges to length %d, push/pop/xchg, '
+              'sub-register writes, aligned store/load, byte and word register moves (slices of one source shared between registers), sub-register logic + shifts '
+              'with sign-bit masks and counts at / beyond the operand width' % (len(LONG_JOBS), ', '.join('%d instr. x depth %d' % (len(al), dq if tier == 'quick' else dt) for al, dq, dt in LONG_JOBS),
+                                                                               max(dq if tier == 'quick' else dt for al, dq, dt in LONG_JOBS)))
     return core.finish('C07', tier, seed, t0, part, rule, level='model_checking', exhaustive=True,
                        assumptions=['the concrete machine interprets the SAME lifted IR (C04 is about the lifter); irsem semantics',
                                     'different symbolic bases are at least 1 MiB apart (the machine\'s no-alias assumption is granted)'])
